@@ -430,7 +430,12 @@ def cases(draw):
             k, v = draw(st.sampled_from([("DATE_ORDER", 1), ("TIMEZONE", 5), ("RETURN_AS_TIMEZONE_AWARE", "yes"), ("RELATIVE_BASE", "2015-01-01"),
                                          ("STRICT_PARSING", 1), ("REQUIRE_PARTS", "day"), ("SKIP_TOKENS", "t"), ("PARSERS", "timestamp"),
                                          ("DEFAULT_LANGUAGES", "en"), ("LANGUAGE_DETECTION_CONFIDENCE_THRESHOLD", 1), ("CACHE_SIZE_LIMIT", "10"),
-                                         ("NORMALIZE", "true"), ("PREFER_LOCALE_DATE_ORDER", 0), ("TO_TIMEZONE", 0), ("RETURN_TIME_AS_PERIOD", "x")]))
+                                         ("NORMALIZE", "true"), ("PREFER_LOCALE_DATE_ORDER", 0), ("TO_TIMEZONE", 0), ("RETURN_TIME_AS_PERIOD", "x"),
+                                         # wrongly typed values whose text equals that of a valid value used elsewhere in the run
+                                         ("STRICT_PARSING", "False"), ("STRICT_PARSING", "True"), ("NORMALIZE", "True"), ("CACHE_SIZE_LIMIT", "1000"),
+                                         ("CACHE_SIZE_LIMIT", "2"), ("REQUIRE_PARTS", "['day']"), ("REQUIRE_PARTS", "[]"), ("PREFER_LOCALE_DATE_ORDER", "False"),
+                                         ("LANGUAGE_DETECTION_CONFIDENCE_THRESHOLD", "0.5"), ("RETURN_AS_TIMEZONE_AWARE", "True"),
+                                         ("SKIP_TOKENS", "[]"), ("PARSERS", "['absolute-time']"), ("DEFAULT_LANGUAGES", "['fr']"), ("FUZZY", "True")]))
             st_[k] = v
         elif inv == "wrong-value":
             k, v = draw(st.sampled_from([("DATE_ORDER", "XYZ"), ("DATE_ORDER", "dmy"), ("PREFER_DAY_OF_MONTH", "middle"), ("PREFER_MONTH_OF_YEAR", "now"),
